@@ -18,7 +18,8 @@ SPEC = {
     "must_reach": ["PyMatterSim.utils.coarse_graining:spatial_average", "PyMatterSim.utils.coarse_graining:gaussian_blurring",
                    "PyMatterSim.utils.coarse_graining:time_average"],
     "floors": {"spatial_average": 300, "grid_positions": 60, "grid_values": 2000, "window_values": 300, "window_index": 300,
-               "window_length": 100, "unequal_grid_cases": 20, "exact_multiple_cases": 15},
+               "window_length": 100, "unequal_grid_cases": 20, "exact_multiple_cases": 15,
+               "file_replaced_with_preserved_time_stamp": 15},
     "rule": ("spatial average: ranks 0/1/2 x own neighbour files (ragged, multi-frame) x Nmax; Gaussian blurring: grids with "
              "equal and unequal point numbers per axis incl. 1- and 2-point axes in 2D/3D x sigma, cut x masks x box origins x "
              "ranks 0/1/2 x 1..3 frames; time average: windows 1..T-1 incl. periods that are exact multiples of the frame "
@@ -65,7 +66,18 @@ def case_spatial(ctx, rng, wd):
     out = os.path.join(wd, "sa.npy") if rng.random() < 0.2 else ""
     info = lambda: {"T": T, "N": N, "rank": rank, "Nmax": Nmax, "lists": lists if N <= 10 else "omitted", "property": A if A.size < 200 else "omitted"}  # noqa: E731
     Ain = represent(A, T + N + rank)
-    if rng.random() < 0.3:
+    if rng.random() < 0.25:
+        # history: another list of the same shape lived under this very name and was read with the same arguments; the file was then replaced
+        # by the present one with its time stamp PRESERVED or older (cp -p, rsync -t, restored from a backup, a symlink re-pointed): the
+        # content decides, not the name / size / time stamp
+        other = [random_lists(rng, N) for _ in range(T)]
+        write_nl(fn, other)
+        st = os.stat(fn)
+        ctx.call("spatial_average/prior_call", spatial_average, Ain, fn, Nmax, "", data=info)
+        write_nl(fn, lists)
+        os.utime(fn, ns=(st.st_atime_ns, st.st_mtime_ns - int(rng.choice([0, 1, 7])) * 10 ** 9))
+        ctx.count("file_replaced_with_preserved_time_stamp")
+    elif rng.random() < 0.3:
         # history: the same file read immediately before with another maximum / for another property of the same shape
         if rng.random() < 0.5:
             ctx.call("spatial_average/prior_call", spatial_average, Ain, fn, max(1, maxcn - 1), "", data=info)
